@@ -432,39 +432,28 @@ class Checker:
         self.fails.append(dict(desc, site="convert", what="the abstract value lacks concrete values although every sub-expression of the "
                                "excavated tree is sound (excavation changed the meaning)", missing=missing[:8]))
 
+    SI_METHOD_SITE = {"mul": "mul", "__mul__": "mul", "add": "add", "__add__": "add", "sub": "sub", "__sub__": "sub",
+                      "bitwise_and": "and", "__and__": "and", "bitwise_or": "or", "__or__": "or", "bitwise_xor": "xor", "__xor__": "xor",
+                      "lshift": "shl", "__lshift__": "shl", "rshift_arithmetic": "ashr", "__rshift__": "ashr", "rshift_logical": "lshr",
+                      "LShR": "lshr", "udiv": "udiv", "sdiv": "sdiv", "__floordiv__": "udiv", "__mod__": "mod", "extract": "extract",
+                      "zero_extend": "zext", "sign_extend": "sext", "concat": "concat", "neg": "neg", "__neg__": "opneg",
+                      "bitwise_not": "not", "__invert__": "not", "__eq__": "eq", "__ne__": "eq", "ULT": "ULT", "ULE": "ULE", "UGT": "UGT",
+                      "UGE": "UGE", "SLT": "SLT", "SLE": "SLE", "SGT": "SGT", "SGE": "SGE"}
+
     def located_exception(self, case, e, ex):
-        """which sub-expression raises?  if the interval-level operation raises the same way on those operands, it is the
-        transfer function's failure"""
-        vsa = E.vsa
+        """an exception raised inside a method of StridedInterval is that transfer function's failure (C21 records exceptions
+        per operation); raised anywhere else it is the conversion's"""
+        import traceback
         desc = {"expr": repr(e)[:300], "intervals": [keystr(k) for k in case.keys]}
-        try:
-            terms = subterms(E.c.excavate_ite(e))
-        except Exception:  # noqa
-            terms = []
-        for t in terms:
-            try:
-                vsa.convert(t)
-                continue
-            except Exception as ex2:  # noqa
-                if type(ex2) is not type(ex):
-                    continue
-            kids = [x for x in t.args if isinstance(x, E.c.ast.Base)]
-            ints = [x for x in t.args if isinstance(x, int) and not isinstance(x, bool)]
-            try:
-                kav = [aval(vsa.convert(k)) for k in kids]
-            except Exception:  # noqa
-                continue
-            culprit = {"op": t.op, "ints": ints, "args": [aval_str(x) for x in kav], "value": "raises " + type(ex).__name__}
-            if t.op in SITE and all(x is not None and x[0] == "si" for x in kav):
-                try:
-                    direct_transfer(t.op, ints, [mk_obj(x) for x in kav])
-                except Exception as ex3:  # noqa
-                    if type(ex3) is type(ex):
-                        self.transfer.append(dict(desc, site=SITE[t.op], culprit=culprit, missing=[]))
-                        return
-            self.fails.append(dict(desc, site="convert", what="raises %s" % type(ex).__name__, culprit=culprit))
-            return
-        self.fails.append(dict(desc, site="convert", what="raises %s" % type(ex).__name__))
+        frames = traceback.extract_tb(ex.__traceback__)
+        for fr in frames:     # outermost first: the transfer function the backend called
+            if fr.filename.endswith("strided_interval.py") and fr.name in self.SI_METHOD_SITE:
+                self.transfer.append(dict(desc, site=self.SI_METHOD_SITE[fr.name], missing=[],
+                                          culprit={"op": fr.name, "args": ["?"], "value": "raises %s inside StridedInterval.%s" % (type(ex).__name__, fr.name)}))
+                return
+        last = frames[-1] if frames else None
+        self.fails.append(dict(desc, site="convert", what="raises %s at %s:%s" % (
+            type(ex).__name__, last.filename.split("/")[-1] if last else "?", last.name if last else "?")))
 
     def solver(self, case, e, want, desc):
         c = E.c
